@@ -75,7 +75,7 @@ def run(ctx):
             on_line = [x for x in hits if int(x[4][0].split(".")[0]) == fl]
             want_line = fl
         for ex in extra:          # further places where the same violation occurs
-            el = L.index(ex)
+            el = ex if isinstance(ex, int) else L.index(ex)
             if not [x for x in hits if int(x[4][0].split(".")[0]) == el]:
                 on_line = []
                 want_line = el
